@@ -45,6 +45,11 @@ type Config struct {
 	SweepPhase int  `json:"sweepphase,omitempty"` // the phase (modulo their number) after which the sweep runs
 	Porc       bool `json:"porc,omitempty"`       // check the recorded history with porcupine
 
+	// Flood > 0: the first phase starts after a pause of more than ten minutes and first writes this many one-sample
+	// chunks while the queue worker is starved (queue capacity Flood+100): the queue's ref map reaches its shrink
+	// threshold with every chunk still pending.
+	Flood int `json:"flood,omitempty"`
+
 	// KF: tag of the one listed known finding this run is allowed to exercise ("" = the run steers around them).
 	KF string `json:"kf,omitempty"`
 }
@@ -229,11 +234,28 @@ func Generate(prop, tier string, seed uint64) *Plan {
 	if cfg.KF == TagTornHeader && cfg.Sweep == 0 {
 		cfg.Sweep = 1
 	}
+	if cfg.KF == "" && rc.Chance(0.03) {
+		cfg.Flood = 1000 + rc.Intn(80)
+		cfg.Queue = cfg.Flood + 100
+		cfg.PolKind, cfg.PolStarve, cfg.PolStarveN = "starve", "chunks.chunkWriteQueue", 1<<30
+		cfg.Sweep, cfg.Porc, cfg.ImgCap = 0, false, 2
+	}
 	r := prng.New(prng.DeriveS(seed, "ops"))
 	p := &Plan{Cfg: cfg}
 	np := []int{1, 2, 2, 3}[r.Intn(4)]
 	for i := 0; i < np; i++ {
 		p.Phases = append(p.Phases, genPhase(r, cfg, i == 0))
+	}
+	if cfg.Flood > 0 {
+		ph := &p.Phases[0]
+		ph.W = append([]Op{{K: "flood", N: cfg.Flood}}, ph.W...)
+		ph.T = nil // no truncation takes the queued chunks away before they are read
+		for i := range ph.R {
+			ph.R[i] = append(ph.R[i], Read{P: "afterflood"})
+			for j := 0; j < 80; j++ {
+				ph.R[i] = append(ph.R[i], Read{P: "any", K: r.Intn(100000)})
+			}
+		}
 	}
 	return p
 }
@@ -255,12 +277,27 @@ func Shrink(p *Plan) []*Plan {
 			out = append(out, q)
 		}
 	}
+	if p.Cfg.Flood > 0 {
+		q := clonePlan(p)
+		q.Cfg.Flood, q.Cfg.Queue, q.Cfg.PolKind, q.Cfg.PolStarve, q.Cfg.PolStarveN = 0, 4, "uniform", "", 0
+		var w []Op
+		for _, o := range q.Phases[0].W {
+			if o.K != "flood" && o.K != "sleep" {
+				w = append(w, o)
+			}
+		}
+		q.Phases[0].W = w
+		out = append(out, q)
+	}
 	simpl(func(c *Config) bool { v := c.Sweep != 0; c.Sweep = 0; return v })
 	simpl(func(c *Config) bool { v := c.Sweep == 2; c.Sweep = 1; return v })
 	simpl(func(c *Config) bool { v := c.ImgCap > 0; c.ImgCap = 0; return v })
 	simpl(func(c *Config) bool { v := c.Porc; c.Porc = false; return v })
 	simpl(func(c *Config) bool { v := c.PolKind != "uniform"; c.PolKind = "uniform"; return v })
-	simpl(func(c *Config) bool { v := c.Queue > 1; c.Queue = 1; return v })
+	simpl(func(c *Config) bool {
+		v := c.Queue > 1 && c.Flood == 0
+		return v && func() bool { c.Queue = 1; return true }()
+	}) // a flood needs its queue capacity
 	simpl(func(c *Config) bool { v := c.BufKB != 64; c.BufKB = 64; return v })
 	// drop phases (keep at least one)
 	for i := range p.Phases {
